@@ -257,8 +257,13 @@ func (s *session) expand(f Forgery, other *session) []forged {
 	case "extend":
 		n := 1 + f.A%32
 		d := append(cp(), bytes.Repeat([]byte{byte(f.B)}, n)...)
-		add(d, "extend", fmt.Sprintf("ext%d", n))
-		// also with the length field repaired, so the record is self-consistent
+		if lay.lenOff < 0 {
+			// no explicit length: the appended bytes become part of the record
+			add(d, "extend", fmt.Sprintf("ext%d", n))
+		}
+		// With an explicit length the appended bytes are a second record (or trailing junk) behind the
+		// UNTOUCHED genuine record, which may legitimately be delivered: not a forgery of that record.
+		// The length field is repaired instead, so the extended record is self-consistent.
 		if lay.lenOff >= 0 {
 			d2 := append([]byte(nil), d...)
 			binary.BigEndian.PutUint16(d2[lay.lenOff:], uint16(len(d2)-lay.hdrLen)) //nolint:gosec
